@@ -30,7 +30,8 @@
 (*   ValidatorNilSafe    a null verificationMethod entry / a method        *)
 (*                       without key material is rejected, not a panic [F5]*)
 (*   TimeSeesDeactivation  resolving by time at/after a deactivation does  *)
-(*                       not fall back to the older active version [F19]   *)
+(*                       not fall back to the older active version [F19,   *)
+(*                       repaired in the code by a229cbc: TRUE everywhere] *)
 (*   LaxDefects = {}     methods embedded in a verification relationship   *)
 (*                       obey the same id rules as verificationMethod [F20]*)
 (***************************************************************************)
@@ -53,6 +54,7 @@ CONSTANTS
     MaxDepth,     \* maxControllerDepth (real: 5)
     SortedMerge, ConflictFlagAtHead, ValidatorNilSafe, TimeSeesDeactivation,
     PinIntermediate,
+    ExtraDup,     \* store mode: duplicate deliveries allowed on top of Scen[sc].dup
     Hist
 
 VARIABLES
@@ -191,7 +193,7 @@ Obs(d) == IF latest'[d] = 0 THEN [nver |-> 0, conflicted |-> FALSE, deact |-> FA
 Add(e) ==
     /\ Mode = "store" /\ e \in Scen[sc].ev
     /\ \/ e \notin arrived /\ UNCHANGED dups
-       \/ e \in arrived /\ dups < Scen[sc].dup /\ dups' = dups + 1
+       \/ e \in arrived /\ dups < Scen[sc].dup + ExtraDup /\ dups' = dups + 1
     /\ StoreAdd(e)
     /\ arrived' = arrived \cup {e}
     /\ last' = [t |-> e, df |-> "none", res |-> "accepted"]
